@@ -37,7 +37,11 @@ def _grid(seed, n0, n1):
 def corpus(ctx):
     # pre-fix F: axis=(0,1) on a 2x2 array put signal (0,1) at [1][0]
     return [dict(seed=3, n0=2, n1=2, axis='a01', kw='none', oids=[], n_jobs=1, rs=True, delay='none', via='func'),
-            dict(seed=3, n0=2, n1=3, axis='a01', kw='list', oids=[0, 1, 2, 3, 0, 1], n_jobs=2, rs=True, delay='reverse', via='func')]
+            dict(seed=3, n0=2, n1=3, axis='a01', kw='list', oids=[0, 1, 2, 3, 0, 1], n_jobs=2, rs=True, delay='reverse', via='func')] + [
+            # directed: ONE shared option dict carrying a popped option (center_extrema) reaches every slice, whatever the
+            # number of workers (an in-process map with n_jobs=1 shares the object between slices, a pool pickles copies)
+            dict(seed=5 + n0, n0=n0, n1=n1, axis=ax, kw='dict', oids=[1], n_jobs=nj, rs=rs, delay='none', via='func')
+            for (n0, n1) in ((3, 2), (2, 3)) for ax in ('0', '1', 'a01') for nj in (1, 2) for rs in (True, False)]
 
 def generate(ctx):
     rng = ctx.rng
